@@ -124,6 +124,29 @@ def forall1(fn, lo, hi, pat=None):
         return VBool(z3.ForAll([k], z3.Implies(g, body)))
 
 
+def forallq(fn, hi, pat=None):
+    """forall q in [0, hi): fn(q)  -- byte-indexed; trigger `pat(q)` (or the marker MkJ(q)); the body is guarded by
+    the marker so that a negated goal offers MkJ(q0) for its skolem position"""
+    q = z3.Int(fresh_name('q'))
+    body = truthy(_lift(fn(VInt(q))))
+    g = z3.And(0 <= q, q < _lift(hi).t, Unfold(q))
+    marker = MkJ(q)
+    _KEEP.append(marker)
+    pats = [marker]
+    if pat is not None:
+        p = pat(VInt(q))
+        p = [x.t if hasattr(x, 't') else x for x in (p if isinstance(p, (list, tuple)) else [p])]
+        pats = [_mp(*p) if len(p) > 1 else p[0], marker]
+    try:
+        return VBool(z3.ForAll([q], z3.Implies(g, body), patterns=pats))
+    except z3.Z3Exception:
+        return VBool(z3.ForAll([q], z3.Implies(g, body), patterns=[marker]))
+
+
+def vxor(a, b):
+    return VInt(smt.bxor(_lift(a).t, _lift(b).t))
+
+
 def at(s, i):
     """s[i] for an index known to be non-negative (no Python negative-index normalisation)"""
     return VInt(sat(s.t, _lift(i).t))
@@ -250,6 +273,9 @@ def K(ns, obj=None):
 CbcC = S.uf('CbcC', [Val, Seq, Seq, I], Seq, seq_ext=[1, 2])   # key, IV, plaintext, block index (>= -1) -> ciphertext block
 
 
+smt.EXT_PARTIAL.add('CbcC')
+
+
 def _cbc_axioms():
     k = z3.Const('ck', Val)
     iv, p = z3.Consts('civ cp', Seq)
@@ -257,6 +283,9 @@ def _cbc_axioms():
     prev = CbcC(k, iv, p, j - 1)
     blk = AesE(k, *[smt.bxor(sat(p, 16 * j + t), sat(prev, z3.IntVal(t))) for t in range(16)])
     return [FA([k, iv, p, j], z3.Implies(j == -1, CbcC(k, iv, p, j) == iv), [CbcC(k, iv, p, j)]),
+            # every C_j (j >= 0) is an AES output block (consequence of the definition below)
+            FA([k, iv, p, j], z3.Implies(j >= 0, z3.And(slen(CbcC(k, iv, p, j)) == 16, isb(CbcC(k, iv, p, j)))),
+               [CbcC(k, iv, p, j)]),
             # C_j = E(P_j xor C_{j-1});  instantiated only where an Unfold(j) marker is present (no matching loop)
             FA([k, iv, p, j], z3.Implies(j >= 0, CbcC(k, iv, p, j) == blk),
                [_mp(CbcC(k, iv, p, j), MkU(j))])]
@@ -560,14 +589,42 @@ def _ctr_enc_inv(ns):
         S.Or(m == 0, 16 * (m - 1) < n), unfold(m),
         _ctr_counter_is(ns.f(ns.self, '_counter'), cb, m),
         S.len_(ns.f(ns.self, '_counter')) == 16, S.is_bytes(ns.f(ns.self, '_counter')),
-        forall2(lambda j, y: at(mask, 16 * j + y) == at(ctr_ks(k, cb, j), y), m,
-                pat=lambda j, y: [at(ctr_ks(k, cb, j), y)]))
+        forallq(lambda q: at(mask, q) == at(ctr_ks(k, cb, q / 16), q % 16), 16 * m, pat=lambda q: [at(mask, q)]))
 
 
 def ctr_nblocks(n):
     """number of key stream blocks consumed for n bytes: ceil(n / 16)"""
     n = _lift(n)
     return VInt((n.t + 15) / 16)
+
+
+CtrX = S.uf('CtrX', [Val] + [I] * 16 + [Seq], Seq, seq_ext=[17])   # functional form of the CTR transformation
+
+
+def _ctrx_axioms():
+    k = z3.Const('ck', Val)
+    c = [z3.Int('cb%d' % t) for t in range(16)]
+    inp = z3.Const('cinp', Seq)
+    q = z3.Int('cq')
+    x = CtrX(k, *(c + [inp]))
+    return [FA([k] + c + [inp], z3.And(slen(x) == slen(inp), z3.Implies(isb(inp), isb(x))), [x]),
+            FA([k] + c + [inp, q], z3.Implies(z3.And(0 <= q, q < slen(inp)),
+                                            sat(x, q) == smt.bxor(sat(inp, q), sat(CtrKS(k, *(c + [q / 16])), q % 16))),
+               [sat(x, q)])]
+
+
+smt.AXIOMS.extend(_ctrx_axioms())
+
+
+def ctr_xor(k, cb, inp):
+    """the CTR transformation of inp as a term: byte q is inp[q] xor O_{q div 16}[q mod 16]"""
+    return VSeq(CtrX(k, *(list(cb) + [inp.t])), 'byte')
+
+
+def ctr_xor_spec(k, cb, inp, out):
+    """out == CtrX(k, cb, inp): out[q] == inp[q] xor O_{q div 16}[q mod 16] for every q < len(inp), O_j the key
+    stream block j of the CTR started at the counter block with bytes cb"""
+    return vb(out.t == ctr_xor(k, cb, inp).t)
 
 
 def _ctr_enc_post(ns):
@@ -578,10 +635,8 @@ def _ctr_enc_post(ns):
     r = ns.result
     return S.And(
         S.len_(r) == n, S.is_bytes(r),
-        # byte 16j+y of the result is P[16j+y] xor O_j[y]; the last block may be partial
-        forall2(lambda j, y: S.implies(16 * j + y < n,
-                                       at(r, 16 * j + y) == VInt(smt.bxor(at(p, 16 * j + y).t, at(ctr_ks(k, cb, j), y).t))),
-                ctr_nblocks(n), pat=lambda j, y: [at(ctr_ks(k, cb, j), y)]),
+        # byte q of the result is P[q] xor O_{q div 16}[q mod 16]; the last block may be partial
+        ctr_xor_spec(k, cb, p, r),
         _ctr_counter_is(ns.f(ns.self, '_counter'), cb, ctr_nblocks(n)),
         S.len_(ns.f(ns.self, '_counter')) == 16, S.is_bytes(ns.f(ns.self, '_counter')))
 
@@ -710,10 +765,6 @@ def gmul(h, y):
     return VInt(GMul(h, _lift(y).t))
 
 
-def vxor(a, b):
-    return VInt(smt.bxor(_lift(a).t, _lift(b).t))
-
-
 GUpd = S.uf('GUpd', [Val, I, Seq], I, seq_ext=[2])     # h, start value, data -> GHASH state after absorbing pad16(data)
 MkD = z3.Function('MkD', Seq, I)                       # marker: "unfold GUpd for this data"
 _md = z3.Const('mkd', Seq)
@@ -807,23 +858,16 @@ GCM_PMAX = (1 << 36) - 32          # SP 800-38D: len(P) <= 2^39 - 256 bits
 
 def _gcm_ct_spec(k, nonce, inp, out):
     """out == CTR_K(J_0 + 1, inp): byte-wise, counter blocks J_0 + 1 + j (128-bit add == inc32 for <= 2^32 - 2 blocks)"""
-    n = S.len_(inp)
-    c0 = _j0(nonce, 2)
-    return S.And(S.len_(out) == n,
-                 forall2(lambda j, y: S.implies(16 * j + y < n,
-                                                at(out, 16 * j + y) == vxor(at(inp, 16 * j + y), at(ctr_ks(k, c0, j), y))),
-                         ctr_nblocks(n), pat=lambda j, y: [at(ctr_ks(k, c0, j), y)]))
+    return ctr_xor_spec(k, _j0(nonce, 2), inp, out)
 
 
 def _gcm_seal_post(ns):
     k = ns.f(ns.f(_gcm_ctr(ns.old), 'rijndael'), 'k').t
     h = H(ns)
     n = S.len_(ns.plaintext)
-    ct = ns.result[0:n]
-    tag = ns.result[n:n + 16]
+    ct = ctr_xor(k, _j0(ns.nonce, 2), ns.plaintext)
     return S.And(S.len_(ns.result) == n + 16, S.is_bytes(ns.result),
-                 _gcm_ct_spec(k, ns.nonce, ns.plaintext, ct),
-                 tag == ghash_tag(h, k, _j0(ns.nonce, 1), ns.data, ct))
+                 ns.result == S.cat(ct, ghash_tag(h, k, _j0(ns.nonce, 1), ns.data, ct)))
 
 
 contract(U + 'aesgcm.py:AESGCM.seal',
@@ -907,9 +951,7 @@ def gcm_open_seal(api):
             else:
                 n = S.len_(p)
                 api.oblige(o2.st, 'length', S.len_(o2.val) == n)
-                api.oblige(o2.st, 'plaintext-equal',
-                           forall2(lambda j, y: S.implies(16 * j + y < n, at(o2.val, 16 * j + y) == at(p, 16 * j + y)),
-                                   ctr_nblocks(n)))
+                api.oblige(o2.st, 'plaintext-equal', forallq(lambda q: at(o2.val, q) == at(p, q), n))
 
 
 # ---------------------------------------------------------------------------
@@ -995,13 +1037,38 @@ def ccm_blocks_cases(M, nonce, aad, msg):
 ZERO16 = VSeq(smt.s_rep(z3.IntVal(0), z3.IntVal(16)), 'byte')
 
 
+CcmB = S.uf('CcmB', [I, Seq, Seq, Seq], Seq, seq_ext=[1, 2, 3])     # M, nonce, aad, msg -> CBC-MAC input B
+
+
+def _ccm_axioms():
+    M = z3.Int('cM')
+    n, a, m = z3.Consts('cn ca cm', Seq)
+    b = CcmB(M, n, a, m)
+    cases = ccm_blocks_cases(VInt(M), VSeq(n), VSeq(a), VSeq(m))
+    return [FA([M, n, a, m], z3.And([z3.Implies(truthy(c), b == B.t) for c, B in cases]), [b])]
+
+
+smt.AXIOMS.extend(_ccm_axioms())
+
+
+def ccm_B(M, nonce, aad, msg):
+    return VSeq(CcmB(_lift(M).t, nonce.t, aad.t, msg.t), 'byte')
+
+
 def ccm_mac_is(k, M, nonce, aad, msg, t):
     """t == T: the first M bytes of the last CBC block of B under a zero IV"""
-    cs = []
-    for cond, B in ccm_blocks_cases(M, nonce, aad, msg):
-        last = cbc_block(k, ZERO16, B, S.len_(B) / 16 - 1)
-        cs.append(S.implies(cond, S.And(S.len_(t) == M, forall1(lambda q: at(t, q) == at(last, q), 0, M))))
-    return S.And(*cs)
+    B = ccm_B(M, nonce, aad, msg)
+    last = cbc_block(k, ZERO16, B, S.len_(B) / 16 - 1)
+    M = _lift(M)
+    i = z3.Int(fresh_name('i'))
+    # the same statement at a symbolic position (the disjunction is valid for 0 <= i < 16; it hands the solver the
+    # case split that connects a symbolic position with the literal ones)
+    sym = z3.ForAll([i], z3.Implies(z3.And(0 <= i, i < M.t, z3.Or([i == q for q in range(16)]),
+                                           Unfold((S.len_(B) / 16 - 1).t)),
+                                    sat(t.t, i) == sat(last.t, i)), patterns=[sat(t.t, i)])
+    return S.And(S.len_(t) == M, vb(sym),
+                 *[S.implies((M > q) & vb(Unfold((S.len_(B) / 16 - 1).t)), at(t, q) == at(last, q))
+                   for q in range(16)])
 
 
 def _ccm_k(ns):
@@ -1030,3 +1097,330 @@ contract(U + 'aesccm.py:AESCCM._cbcmac_calc',
          doc='RFC 3610 2.2: T = first M bytes of the CBC-MAC (zero IV) over B_0 || l(a)-encoding || a || 0* || m || 0* '
              'with B_0 = flags || nonce || [l(m)]_3, flags = 64*[a non-empty] + 8*((M-2)/2) + 2; a-length encoded on '
              '2 bytes below 2^16-2^8, as FFFE+4 bytes below 2^32, else FFFF+8 bytes')
+
+
+# case split helper for extensionality witnesses over tags (valid arithmetic: an integer in [0, 16) is one of
+# 0..15); lets the solver connect a byte-string disequality found by the code (`!=`, compare_digest) with
+# specifications stated byte by byte at literal positions
+def _witness_split_axiom():
+    a, b = z3.Consts('wa wb', Seq)
+    d = smt.s_diff(a, b)
+    return [FA([a, b], z3.Implies(z3.And(slen(a) <= 16, 0 <= d, d < slen(a)),
+                                  z3.Or([d == t for t in range(16)])), [d])]
+
+
+smt.AXIOMS.extend(_witness_split_axiom())
+
+
+def ccm_a0(nonce):
+    """bytes of A_0 = (L-1) || nonce || 0^L, L = 3"""
+    return [z3.IntVal(2)] + [sat(nonce.t, z3.IntVal(t)) for t in range(12)] + [z3.IntVal(0)] * 3
+
+
+def ccm_tag(k, M, nonce, aad, msg):
+    """T (VSeq of 16 bytes of which the first M count): last CBC block of B"""
+    B = ccm_B(M, nonce, aad, msg)
+    return cbc_block(k, ZERO16, B, S.len_(B) / 16 - 1)
+
+
+def _ccm_ct_spec(k, nonce, inp, out):
+    """out == inp xor S_1 S_2 ... : CTR started at A_1 = inc(A_0)"""
+    a1 = seq_bytes16(ctr_t(ccm_a0(nonce), 1))
+    return ctr_xor_spec(k, a1, inp, out)
+
+
+def _ccm_seal_post(ns):
+    k = _ccm_k(ns.old)
+    M = ns.f(ns.self, 'tagLength')
+    n = S.len_(ns.msg)
+    r = ns.result
+    T_ = ccm_tag(k, M, ns.nonce, ns.aad, ns.msg)
+    a0 = ccm_a0(ns.nonce)
+    a1 = seq_bytes16(ctr_t(a0, 1))
+    # C = m xor S_1 S_2 ...;  U = first M bytes of (T xor S_0)
+    return S.And(S.len_(r) == n + M, S.is_bytes(r),
+                 r == S.cat(ctr_xor(k, a1, ns.msg), ctr_xor(k, a0, T_)[0:M]))
+
+
+contract(U + 'aesccm.py:AESCCM.seal',
+         params={'self': AES_CCM, 'nonce': T.bytes(), 'msg': T.bytes(), 'aad': T.bytes()}, setup=_ccm_setup,
+         requires=lambda ns: S.And(_ccm_common_req(ns), S.len_(ns.msg) <= CCM_MSG_MAX, S.len_(ns.aad) < CCM_AAD_MAX),
+         result=T.bytes(), modifies=[('self._ctr', '_counter'), ('self._cbc', 'IV')],
+         raises={ValueError: ('iff', lambda ns: S.len_(ns.nonce) != 12)},
+         ensures=_ccm_seal_post,
+         prop=PROP,
+         doc='RFC 3610 2.3: seal = (m xor S_1 S_2 ...) || (T xor first M bytes of S_0), S_i = E(A_i), '
+             'A_0 = 02 || nonce || 000000, A_{i+1} = inc(A_i), T the CBC-MAC of 2.2; M = 8 truncates the tag')
+
+
+def _ccm_open_post(ns):
+    k = _ccm_k(ns.old)
+    M = ns.f(ns.self, 'tagLength')
+    c = ns.ciphertext
+    n = S.len_(c) - M
+    s0 = ctr_ks(k, ccm_a0(ns.nonce), 0)
+    # the (unique) candidate plaintext: C xor S_1 S_2 ...
+    if isinstance(ns.result, VNone):
+        # refused: shorter than a tag, or for the candidate plaintext m = C xor S_1 S_2 ... the received tag
+        # U xor S_0 differs from T(nonce, aad, m) in at least one of its M bytes
+        m = ctr_xor(k, seq_bytes16(ctr_t(ccm_a0(ns.nonce), 1)), c)[0:n]     # == (C xor S_1 S_2 ...), tag part dropped
+        T_ = ccm_tag(k, M, ns.nonce, ns.aad, m)
+        same = S.And(*[S.implies(M > q, vxor(at(c, n + q), at(s0, q)) == at(T_, q)) for q in range(16)])
+        return S.Or(S.len_(c) < M, S.Not(same))
+    m = ns.result
+    T_ = ccm_tag(k, M, ns.nonce, ns.aad, m)
+    return S.And(S.len_(c) >= M, S.is_bytes(m),
+                 m == ctr_xor(k, seq_bytes16(ctr_t(ccm_a0(ns.nonce), 1)), c)[0:n],
+                 *[S.implies(M > q, vxor(at(c, n + q), at(s0, q)) == at(T_, q)) for q in range(16)])
+
+
+contract(U + 'aesccm.py:AESCCM.open',
+         params={'self': AES_CCM, 'nonce': T.bytes(), 'ciphertext': T.bytes(), 'aad': T.bytes()}, setup=_ccm_setup,
+         requires=lambda ns: S.And(_ccm_common_req(ns), S.len_(ns.ciphertext) <= CCM_MSG_MAX, S.len_(ns.aad) < CCM_AAD_MAX),
+         result=T.bytes(), modifies=[('self._ctr', '_counter'), ('self._cbc', 'IV')],
+         raises={ValueError: ('iff', lambda ns: S.len_(ns.nonce) != 12)},
+         ensures=_ccm_open_post,
+         prop=('C09', 'C02'),
+         doc='RFC 3610 2.5/2.6: open returns m = C xor S_1 S_2 ... only if all M bytes of U xor S_0 equal '
+             'T(nonce, aad, m); it returns None if the input is shorter than M or any tag byte differs')
+
+
+def make_ccm(api, name, M):
+    g = api.make(name, AES_CCM)
+    st = api.st
+    h = st.heap
+    rc = h[(h[(g.oid, '_ctr')].oid, 'rijndael')]
+    rb = h[(h[(g.oid, '_cbc')].oid, 'rijndael')]
+    h[(rb.oid, 'k')] = h[(rc.oid, 'k')]
+    ns = api.ns(st)
+    st.assume(S.And(ns.f(g, 'tagLength') == M, ns.f(ns.f(g, '_ctr'), '_counter_bytes') == 0,
+                    S.len_(ns.f(ns.f(g, '_ctr'), '_counter')) == 16))
+    return g
+
+
+def _ccm_roundtrip(M):
+    def body(api):
+        snd, rcv = make_ccm(api, 'snd', M), make_ccm(api, 'rcv', M)
+        h = api.st.heap
+        for fld in ('_ctr', '_cbc'):
+            ra = h[(h[(snd.oid, fld)].oid, 'rijndael')]
+            rb = h[(h[(rcv.oid, fld)].oid, 'rijndael')]
+            h[(rb.oid, 'k')] = h[(ra.oid, 'k')]
+        nonce, p, a = api.make('nonce', T.bytes()), api.make('p', T.bytes()), api.make('a', T.bytes())
+        api.st.assume(S.And(S.len_(nonce) == 12, S.len_(p) <= CCM_MSG_MAX - 16, S.len_(a) < CCM_AAD_MAX))
+        for o in api.call(U + 'aesccm.py:AESCCM.seal', [snd, nonce, p, a], api.st, inline=False):
+            if o.kind != 'normal':
+                api.unreachable(o.st, 'seal-does-not-raise')
+                continue
+            for o2 in api.call(U + 'aesccm.py:AESCCM.open', [rcv, nonce, o.val, a], o.st.fork()):
+                if o2.kind != 'normal':
+                    api.unreachable(o2.st, 'open-does-not-raise')
+                elif isinstance(o2.val, VNone):
+                    api.unreachable(o2.st, 'open-accepts-untouched-ciphertext')
+                else:
+                    api.oblige(o2.st, 'length', S.len_(o2.val) == S.len_(p))
+                    api.oblige(o2.st, 'plaintext-equal', forallq(lambda q: at(o2.val, q) == at(p, q), S.len_(p)))
+    return body
+
+
+for _M in (16, 8):
+    scenario('ccm%s-open-seal' % ('' if _M == 16 else '_8'), ('C09', 'C02'),
+             doc='AESCCM (tag length %d): open(nonce, seal(nonce, P, A), A) == P for every P, A, 12-byte nonce, two '
+                 'objects with the same key' % _M, opts={'prune': False})(_ccm_roundtrip(_M))
+
+
+# ---------------------------------------------------------------------------
+# ChaCha20 (RFC 8439 2.1 - 2.3) in bit-vector arithmetic.  The code computes on Python ints with explicit
+# `& 0xffffffff`; it is executed on 64-bit vectors with no-overflow side obligations and compared with a
+# transcription of the RFC on 32-bit vectors.
+import tlslite.utils.chacha as CHA
+
+BVW = 64
+
+
+class TWords(T):
+    """list of n 32-bit words (VList of bit-vector / Int values in [0, 2^32))"""
+
+    def __init__(self, n):
+        T.__init__(self, 'words', n=n)
+
+    def make(self, name, st, bv=None):
+        items = []
+        for i in range(self.kw['n']):
+            if bv:
+                v = VInt(z3.BitVec(fresh_name('%s_%d' % (name, i)), bv))
+                st.assume(z3.ULT(v.t, z3.BitVecVal(1 << 32, bv)))
+            else:
+                v = VInt(z3.Int(fresh_name('%s_%d' % (name, i))))
+                st.assume(z3.And(0 <= v.t, v.t < (1 << 32)))
+            items.append(v)
+        return VList(items)
+
+
+def _w32(v):
+    return z3.Extract(31, 0, v.t)
+
+
+def rfc_qr(a, b, c, d):
+    """RFC 8439 2.1 on 32-bit vectors"""
+    a = a + b; d = d ^ a; d = z3.RotateLeft(d, 16)
+    c = c + d; b = b ^ c; b = z3.RotateLeft(b, 12)
+    a = a + b; d = d ^ a; d = z3.RotateLeft(d, 8)
+    c = c + d; b = b ^ c; b = z3.RotateLeft(b, 7)
+    return a, b, c, d
+
+
+def rfc_quarterround(s, x, y, z, w):
+    s = list(s)
+    s[x], s[y], s[z], s[w] = rfc_qr(s[x], s[y], s[z], s[w])
+    return s
+
+
+def rfc_double_round(s):
+    """RFC 8439 2.3: inner_block = 4 column rounds then 4 diagonal rounds"""
+    for (x, y, z, w) in ((0, 4, 8, 12), (1, 5, 9, 13), (2, 6, 10, 14), (3, 7, 11, 15),
+                         (0, 5, 10, 15), (1, 6, 11, 12), (2, 7, 8, 13), (3, 4, 9, 14)):
+        s = rfc_quarterround(s, x, y, z, w)
+    return s
+
+
+def _words_eq(final, spec32):
+    # low 32 bits equal the RFC word and nothing above them is set
+    return S.And(*([vb(z3.Extract(31, 0, f.t) == w) for f, w in zip(final.items, spec32)] +
+                   [vb(z3.Extract(BVW - 1, 32, f.t) == 0) for f in final.items]))
+
+
+for _t in ((0, 4, 8, 12), (1, 5, 9, 13), (2, 6, 10, 14), (3, 7, 11, 15),
+           (0, 5, 10, 15), (1, 6, 11, 12), (2, 7, 8, 13), (3, 4, 9, 14)):
+    contract(U + 'chacha.py:ChaCha.quarter_round', name='ChaCha.quarter_round[%d,%d,%d,%d]' % _t,
+             params={'x': TWords(16), 'a': T.const(_t[0]), 'b': T.const(_t[1]), 'c': T.const(_t[2]), 'd': T.const(_t[3])},
+             mode='bv', width=BVW, result=T.none(),
+             ensures=(lambda t: lambda ns: _words_eq(ns.final('x'),
+                                                     rfc_quarterround([_w32(v) for v in ns.x.items], *t)))(_t),
+             prop=PROP, doc='QUARTERROUND(%d,%d,%d,%d) of RFC 8439 2.1/2.2 on the 16-word state, in place' % _t)
+
+
+def _dr_apply(c, ex, args, kwargs, st, fr, node):
+    """double_round mutates its list argument in place: the caller's variable is rebound to the new state"""
+    x = args[-1]
+    argn = node.args[0]
+    if not isinstance(argn, _ast.Name) or not isinstance(x, VList) or len(x.items) != 16:
+        raise Unsupported('double_round on a non-local argument')
+    new = []
+    bvw = ex.bv
+    x = VList([v if v.is_bv() else VInt(z3.BitVecVal(v.concrete(), bvw)) for v in x.items]) if bvw else x
+    spec = rfc_double_round([_w32(v) for v in x.items]) if ex.bv else None
+    if spec is None:
+        raise Unsupported('double_round contract is bit-vector only')
+    for i in range(16):
+        # the post-state as a term (no fresh constant): zero_extend(RFC word); z3 simplifies the
+        # extract-of-zero-extend of the next round away, so ten applications nest exactly like the RFC text
+        new.append(VInt(z3.simplify(z3.ZeroExt(ex.bv - 32, spec[i]))))
+    outs = ex.assign(_ast.Name(id=argn.id, ctx=_ast.Store()), VList(new), st, fr)
+    return [Outcome('normal', o.st, VNone()) for o in outs]
+
+
+_M32 = z3.BitVecVal(0xffffffff, BVW)
+
+
+def _c64(n):
+    return z3.BitVecVal(n, BVW)
+
+
+def code_qr64(xa, xb, xc, xd):
+    """the quarter-round statements of chacha.py transcribed operator by operator on 64-bit vectors (used only
+    to introduce cut points; it must produce exactly the terms the executor produces -- checked below)"""
+    xa = (xa + xb) & _M32
+    xd = xd ^ xa
+    xd = ((xd << _c64(16)) & _M32 | (xd >> _c64(16)))
+    xc = (xc + xd) & _M32
+    xb = xb ^ xc
+    xb = ((xb << _c64(12)) & _M32 | (xb >> _c64(20)))
+    xa = (xa + xb) & _M32
+    xd = xd ^ xa
+    xd = ((xd << _c64(8)) & _M32 | (xd >> _c64(24)))
+    xc = (xc + xd) & _M32
+    xb = xb ^ xc
+    xb = ((xb << _c64(7)) & _M32 | (xb >> _c64(25)))
+    return xa, xb, xc, xd
+
+
+_DR_ORDER = ((0, 4, 8, 12), (1, 5, 9, 13), (2, 6, 10, 14), (3, 7, 11, 15),
+             (0, 5, 10, 15), (1, 6, 11, 12), (2, 7, 8, 13), (3, 4, 9, 14))
+
+
+def _dr_staged(x0, final):
+    """double_round == RFC inner_block, proved in stages with cut variables: after every quarter round the four
+    updated words are named by fresh 64-bit constants v (defined as the code's expression) and fresh 32-bit
+    constants w (defined as the RFC's expression); stage i shows v == zero_extend(w) from the same relation
+    on the stage's inputs (a single quarter round); the last conjunct chains the stages to the terms computed by
+    the real body.  Every conjunct is a closed implication, so the conjunction is the plain statement."""
+    v = [t.t for t in x0]                         # 64-bit state, stage 0 = the parameter
+    w = [z3.Extract(31, 0, t) for t in v]         # 32-bit state, stage 0
+    code = list(v)                                # code-shaped terms without cut points
+    spec = list(w)                                # RFC terms without cut points
+    ze = lambda t: z3.ZeroExt(BVW - 32, t)
+    hi0 = [z3.Extract(BVW - 1, 32, t) == 0 for t in v]
+    conj = [z3.Implies(z3.And(hi0), z3.And([v[k] == ze(w[k]) for k in range(16)]))]
+    link = [v[k] == ze(w[k]) for k in range(16)]              # relation between the two states, per word
+    alldefs = list(hi0)
+    for st_i, (a, b, c, d) in enumerate(_DR_ORDER):
+        idx = (a, b, c, d)
+        cq = code_qr64(*[code[k] for k in idx])
+        sq = rfc_qr(*[spec[k] for k in idx])
+        nv = code_qr64(*[v[k] for k in idx])
+        nw = rfc_qr(*[w[k] for k in idx])
+        step = [z3.And(z3.Extract(31, 0, nv[pos]) == nw[pos], z3.Extract(BVW - 1, 32, nv[pos]) == 0) for pos in range(4)]
+        # A: one quarter round on related inputs gives related outputs
+        conj.append(z3.Implies(z3.And([link[k] for k in idx]), z3.And(step)))
+        for pos, k in enumerate(idx):
+            code[k], spec[k] = cq[pos], sq[pos]
+            fv = z3.BitVec(fresh_name('cutv%d_%d' % (st_i, k)), BVW)
+            fw = z3.BitVec(fresh_name('cutw%d_%d' % (st_i, k)), 32)
+            # B: naming the outputs keeps them related
+            conj.append(z3.Implies(z3.And(fv == nv[pos], fw == nw[pos], step[pos]), fv == ze(fw)))
+            alldefs += [fv == nv[pos], fw == nw[pos]]
+        # the cut constants become the state of the next stage
+        for pos, k in enumerate(idx):
+            v[k] = alldefs[-8 + 2 * pos].arg(0)
+            w[k] = alldefs[-8 + 2 * pos + 1].arg(0)
+            link[k] = v[k] == ze(w[k])
+    # the real body computed exactly the code-shaped terms (structural identity of the ASTs)
+    for k in range(16):
+        if not final[k].t.eq(code[k]):
+            raise Unsupported('double_round: executor term for word %d is not the transcription of chacha.py' % k)
+    # chaining: under the definitions of the cut constants the body's terms are the last v, the RFC terms the last w
+    conj.append(z3.Implies(z3.And(alldefs + link), z3.And([final[k].t == ze(spec[k]) for k in range(16)])))
+    # ... and the plain statement (the cut constants are fresh and defined, so this conjunct alone is equivalent
+    # to: high halves zero ==> final state == zero_extend(RFC inner_block(low halves)))
+    conj.append(z3.Implies(z3.And(alldefs), z3.And([final[k].t == ze(spec[k]) for k in range(16)])))
+    return VBool(z3.And(conj))
+
+
+contract(U + 'chacha.py:ChaCha.double_round',
+         params={'cls': T.const(None), 'x': TWords(16)}, mode='bv', width=BVW, result=T.none(),
+         setup=lambda ex, st, ns: st.env.__setitem__('cls', VPy(CHA.ChaCha)),
+         ensures=lambda ns: _dr_staged(ns.x.items, ns.final('x').items),
+         apply_fn=_dr_apply, opts={'sequential_conjuncts': True},
+         prop=PROP, doc='one column round followed by one diagonal round (RFC 8439 2.3 inner_block), in place')
+
+
+def rfc_block(key, counter, nonce):
+    """RFC 8439 2.3: state = constants | key | counter | nonce; 10 double rounds; state += initial state"""
+    init = [z3.BitVecVal(c, 32) for c in (0x61707865, 0x3320646e, 0x79622d32, 0x6b206574)] + key + [counter] + nonce
+    s = list(init)
+    for _ in range(10):
+        s = rfc_double_round(s)
+    return [a + b for a, b in zip(s, init)]
+
+
+contract(U + 'chacha.py:ChaCha.chacha_block',
+         params={'key': TWords(8), 'counter': TWords(1), 'nonce': TWords(3), 'rounds': T.const(20)},
+         setup=lambda ex, st, ns: st.env.__setitem__('counter', st.env['counter'].items[0]),
+         mode='bv', width=BVW, result=TWords(16),
+         ensures=lambda ns: S.And(S.len_(ns.result) == 16,
+                                  _words_eq(ns.result, rfc_block([_w32(v) for v in ns.key.items], _w32(ns.counter),
+                                                                 [_w32(v) for v in ns.nonce.items]))),
+         prop=PROP,
+         doc='chacha20_block of RFC 8439 2.3 for 20 rounds: state layout constants|key|counter|nonce, ten double '
+             'rounds, final word-wise addition of the initial state mod 2^32')
